@@ -128,6 +128,10 @@ where
                                         panic!("sink must not send data");
                                     },
                                     Message::Pull => {
+                                        if ended.load(AtomicOrdering::Acquire) {
+                                            // a member answered the pull with an error: the rest are disposed
+                                            break;
+                                        }
                                         call!(
                                             source_talkback,
                                             Message::Pull,
